@@ -188,7 +188,7 @@ fn check_step<const N: usize>(g: &mut OsuGradualDifficulty, w: &Witness<N>, m: &
     let ghost = ghost_probe();
     let (a0, s0, f0) = unsafe { (LEN_AIM, LEN_SPEED, LEN_FL) };
 
-    assert!(g.len() == remaining, "C15 osu: len() equals the number of values still to come");
+    assert!(g.len() == remaining, "C15,C02 osu: len() equals the number of values still to come");
     let (lo, hi) = g.size_hint();
     assert!(lo == g.len() && hi == Some(lo), "C15 osu: size_hint() agrees with len()");
     if w.call == 2 {
@@ -199,7 +199,7 @@ fn check_step<const N: usize>(g: &mut OsuGradualDifficulty, w: &Witness<N>, m: &
 
     if n < remaining {
         let k = p + n + 1;
-        assert!(res.is_some(), "C15 osu: a value is produced while enough values remain");
+        assert!(res.is_some(), "C15,C02 osu: a value is produced while enough values remain");
         let a = res.unwrap();
         check_counters(&a, m, k);
         assert!(g.idx == k, "C15 osu: cursor advanced by n + 1");
